@@ -363,3 +363,11 @@ func (db *DB) VerifFlushTable(name string) bool {
 	t.forceFlush()
 	return true
 }
+
+// VerifQueryHandlers returns how many remote query handlers are currently
+// registered (and not yet consumed) for a partition on this leader.
+func (db *DB) VerifQueryHandlers(partition int) int {
+	db.tablesMutex.RLock()
+	defer db.tablesMutex.RUnlock()
+	return len(db.remoteQueryHandlers[partition])
+}
